@@ -145,6 +145,28 @@ def computing_shard(args):
             if st == "bad":
                 part.violation(f"{country}:{sig}", {"kind": "c09gen", "country": country, "bank": b,
                                                     "account": a, "branch": r}, "passes", obs)
+        # draws with one pinned component: whatever is returned must still validate nationally
+        for comp_name in ("account_code", "bank_code", "branch_code"):
+            sp = c.span(comp_name)
+            if not sp:
+                continue
+            for filler_ in ("max", "min", "distinct"):
+                val = bases.bban(c, filler_)[sp[0]:sp[1]]
+                for seed in range(6 if tier == "quick" else 40):
+                    for use_reg in (True, False):
+                        part.count((country, "random-pinned", comp_name, val, seed, use_reg))
+                        k, v = lib.outcome(lambda: lib.IBAN.random(country, random=random.Random(seed),
+                                                                    use_registry=use_reg, **{comp_name: val}))
+                        if k == "ok":
+                            ok, sig, obs = judge_built(country, v)
+                            if not ok:
+                                part.violation(f"{country}:random-with-pinned-{comp_name}:{sig}",
+                                               {"kind": "c09rand", "country": country, "seed": seed,
+                                                "use_registry": use_reg, "pins": {comp_name: val}}, "passes", obs)
+                        elif k == "foreign":
+                            part.violation(f"{country}:random-with-pinned-{comp_name}:foreign-exception:{v}",
+                                           {"kind": "c09rand", "country": country, "seed": seed,
+                                            "use_registry": use_reg, "pins": {comp_name: val}}, "passes", (k, v))
         for seed in range(40 if tier == "quick" else 400):
             for use_reg in (True, False):
                 part.count((country, "random", seed, use_reg))
@@ -315,6 +337,14 @@ def replay(case: dict) -> dict:
         return {"ok": True, "observed": "sequence case: replayed through its shard"}
     if case["kind"] == "c09gen":
         st, sig, obs = judge_generate(case["country"], case["bank"], case["account"], case["branch"])
+    elif case["kind"] == "c09rand" and case.get("pins"):
+        k, v = lib.outcome(lambda: lib.IBAN.random(case["country"], random=random.Random(case["seed"]),
+                                                    use_registry=case["use_registry"], **case["pins"]))
+        if k == "ok":
+            ok, sig, obs = judge_built(case["country"], v)
+            st = "ok" if ok else "bad"
+        else:
+            st, sig, obs = ("bad" if k == "foreign" else "raised"), None, (k, v)
     elif case["kind"] == "c09rand":
         st, sig, obs = judge_random(case["country"], case["seed"], case["use_registry"])
     else:
